@@ -112,7 +112,7 @@ class C04(core.Check):
                                        'means:align', 'means:created-zone', 'order:ascending', 'order:descending',
                                        'order:interleaved', 'overlap:non-adjacent', 'expect:REJECT', 'expect:ACCEPT',
                                        'output:bin', 'output:nobin', 'output:both', 'window-excludes-the-overlap',
-                                       'means:macro-with-non-byte-steps', 'means:global-relative-org', 'unselected-origin-before-bytes']}
+                                       'means:macro-with-non-byte-steps', 'means:embedded-string', 'embedded-string:two-byte-character', 'embedded-string:three-byte-character', 'means:global-relative-org', 'unselected-origin-before-bytes']}
 
     def build(self, rng, items, means_list=None, order=None, mute=None, out_mode=None):
         """items: [(addr, len)]"""
@@ -270,6 +270,41 @@ class C04(core.Check):
                                         'intervals': [[a0, sz], [other, 1]], 'out_mode': 'bin'},
                                'tags': sorted({'means:macro-with-non-byte-steps', 'expect:' + ('REJECT' if overlap else 'ACCEPT'), 'output:bin',
                                                'order:ascending' if (other >= a0) == (order == 'macro-first') else 'order:descending'})}
+        # an embedded string occupies the bytes of its encoded text plus the terminator (a character written literally in the UTF-8 source may take several; escapes are not examined here): a line
+        # on any of those addresses overlaps it, the first address after them does not
+        isa_s = gen_prog.layout_isa(16)
+        isa_s['general']['allow_embedded_strings'] = True
+        fn_s, text_s = isamod.render_isa(isa_s, 'json')
+        for sname, stext, sbytes in (('two-byte-character', '"caf\u00e9"', 'caf\u00e9'.encode('utf-8') + b'\0'),
+                                     ('two-byte-characters', '"gr\u00fc\u00df"', 'gr\u00fc\u00df'.encode('utf-8') + b'\0'),
+                                     ('three-byte-character', '"\u20ac5"', '\u20ac5'.encode('utf-8') + b'\0'),
+                                     ('ascii', '"plain"', b'plain\0')):
+            sz = len(sbytes)
+            for at in range(0, sz + 2):
+                for order in ('string-first', 'string-last', 'sequential'):
+                    a0 = 2
+                    other = a0 + at - 1
+                    if order == 'sequential':
+                        if at:
+                            continue
+                        lines_ = [f'.org {a0}', stext, '.byte $AA']
+                        other = a0 + sz
+                    else:
+                        lines_ = [f'.org {a0}', stext] if order == 'string-first' else []
+                        lines_ += [f'.org {other}', '.byte $AA']
+                        if order == 'string-last':
+                            lines_ += [f'.org {a0}', stext]
+                    overlap = a0 <= other < a0 + sz
+                    M_ = {a0 + i: sbytes[i] for i in range(sz)}
+                    M_[other] = 0xAA
+                    end_ = a0 + sz + 3
+                    yield {'runs': [{'files': {fn_s: text_s, 'p.asm': '\n'.join(lines_) + '\n'},
+                                     'argv': ['compile', '-c', fn_s, 'p.asm', '-o', 'out.bin', '-e', str(end_)],
+                                     'env': {'PYTHONUTF8': '1'}, 'probes': ['steps'], 'step_limit': 300000}],
+                           'meta': {'kind': 'REJECT' if overlap else 'ACCEPT', 'M': {str(k): v for k, v in M_.items()}, 'end': end_,
+                                    'intervals': [[a0, sz], [other, 1]], 'out_mode': 'bin'},
+                           'tags': sorted({'means:embedded-string', 'embedded-string:' + sname, 'expect:' + ('REJECT' if overlap else 'ACCEPT'),
+                                           'output:bin', 'order:ascending' if (other >= a0) == (order != 'string-last') else 'order:descending'})}
         # GLOBAL redefined with a non-zero start: '.org v "GLOBAL"' is v above that start, '.org a' is absolute
         for gs in (0x100, 0x10):
             isa_g = gen_prog.layout_isa(16, global_zone=(gs, 0x7FFF), origin=gs)
